@@ -42,6 +42,23 @@ func checkC30(r *Run) {
 						fs = append(fs, a.S)
 					}
 					_, m := matchAny([]string{`ok(decimal.NewFromString("9223372036854775807"))`}, fs)
+					if !m {
+						// assigned first, checked right after: fine as long as init cannot complete with a parse error
+						m = true
+						ffn := r.P.Facts(fn)
+						for _, b := range fn.Blocks {
+							if _, isRet := b.Instrs[len(b.Instrs)-1].(*ssa.Return); !isRet || !s.In.Block().Dominates(b) {
+								continue
+							}
+							var es []string
+							for _, a := range ffn.Must(b) {
+								es = append(es, a.S)
+							}
+							if _, okk := matchAny([]string{`ok(decimal.NewFromString("9223372036854775807"))`}, es); !okk {
+								m = false
+							}
+						}
+					}
 					r.Check("C30-R1", "the literal parsed without error", r.P.Pos(s.In.Pos()), m, "")
 				}
 			}
